@@ -279,6 +279,17 @@ def discharge(obls, timeout_ms=10000, use_cvc5=False):
                     o.status, o.solver = "discharged", "cvc5"
                 elif r2 == "sat":
                     o.status, o.solver = "refuted", "cvc5"
+            if o.status == "unknown":
+                for N in (2, 3):
+                    try:
+                        m = bounded_refute(o, N, min(timeout_ms, 20000))
+                    except z3.Z3Exception:
+                        m = None
+                    if m is not None:
+                        o.status = "refuted"
+                        o.solver = f"z3-bounded-instantiation(N={N})"
+                        o.model = m
+                        break
         o.time = time.time() - t0
     return obls
 
@@ -297,3 +308,82 @@ def cvc5_check(smt2, timeout_ms):
         return "unknown"
     finally:
         os.unlink(path)
+
+
+# ----------------------------------------------------------------------
+# Counterexample search for obligations the solver leaves `unknown`
+# (typically a *false* obligation whose quantified hypotheses prevent z3
+# from building a model).  Every array length is bounded by N and every
+# universally quantified hypothesis is instantiated over the finite index
+# range, giving a quantifier-free query.  A model found this way is a model
+# of the original VC when all quantifiers are range-guarded by lengths <= N
+# (ours are); it is in any case replayed on the real code before it is
+# reported with a failing input.  `unsat` here proves nothing and the
+# obligation stays undecided.
+def _expand(f, pol, N, cache):
+    if z3.is_quantifier(f):
+        univ = f.is_forall()
+        if (univ and pol > 0) or ((not univ) and pol < 0):
+            nv = f.num_vars()
+            if not all(f.var_sort(i) == z3.IntSort() for i in range(nv)):
+                return f
+            body = f.body()
+            import itertools
+            vals = list(range(-1, N + 1))
+            if nv > 2:
+                vals = list(range(0, N))
+            parts = []
+            for combo in itertools.product(vals, repeat=nv):
+                # de Bruijn: var 0 is the innermost = last declared
+                subs = [z3.IntVal(c) for c in reversed(combo)]
+                inst = z3.substitute_vars(body, *subs)
+                parts.append(_expand(inst, pol, N, cache))
+            return z3.And(*parts) if univ else z3.Or(*parts)
+        return f
+    if not z3.is_app(f) or not z3.is_bool(f):
+        return f
+    k = f.decl().kind()
+    ch = f.children()
+    if k == z3.Z3_OP_NOT:
+        return z3.Not(_expand(ch[0], -pol, N, cache))
+    if k == z3.Z3_OP_AND:
+        return z3.And(*[_expand(c, pol, N, cache) for c in ch])
+    if k == z3.Z3_OP_OR:
+        return z3.Or(*[_expand(c, pol, N, cache) for c in ch])
+    if k == z3.Z3_OP_IMPLIES:
+        return z3.Implies(_expand(ch[0], -pol, N, cache),
+                          _expand(ch[1], pol, N, cache))
+    return f
+
+
+def _len_consts(fs):
+    out = {}
+    seen = set()
+    stack = list(fs)
+    while stack:
+        t = stack.pop()
+        if t.get_id() in seen:
+            continue
+        seen.add(t.get_id())
+        if z3.is_quantifier(t):
+            stack.append(t.body())
+            continue
+        if z3.is_const(t) and t.decl().kind() == z3.Z3_OP_UNINTERPRETED \
+                and z3.is_int(t) and ".len" in t.decl().name():
+            out[t.decl().name()] = t
+        stack.extend(t.children())
+    return list(out.values())
+
+
+def bounded_refute(o, N=3, timeout_ms=20000):
+    fs = list(o.hyps) + [z3.Not(o.goal)]
+    s = z3.Solver()
+    s.set("timeout", timeout_ms)
+    for ln in _len_consts(fs):
+        s.add(ln <= N)
+    for f in fs:
+        s.add(_expand(f, 1, N, {}))
+    r = s.check()
+    if r == z3.sat:
+        return s.model()
+    return None
